@@ -85,7 +85,7 @@ def cfgSetting (s : String) : Option Config.Setting :=
     let fl : Option Config.FileL := match f with
       | 'a' => some .absent | 'p' => some .present | 'z' => some .zero | 'm' => some .malformed | _ => none
     let el : Option Config.EnvL := match e with
-      | 'u' => some .unset | 'e' => some .empty | 'p' => some .present | 'm' => some .malformed | _ => none
+      | 'u' => some .unset | 'e' => some .empty | 'p' => some .present | 'm' => some .malformed | 'z' => some .zero | _ => none
     match fl, el with
     | some a, some b => some ⟨a, b⟩
     | _, _ => none
